@@ -174,8 +174,9 @@ def oracle_similarity(rng, n, R):
         form = MASK_FORMS[it % 4]
         msh = mask_shape(form, N, C, sp)
         m = rbin(rng, msh, 0.6) if it % 3 else rnd(rng, msh, 0.0, 1.0).mul(rbin(rng, msh, 0.7))
-        if float(m.sum()) == 0:
-            m.reshape(-1)[0] = 1.0
+        for n_ in range(m.shape[0]):          # positive mask sum for every batch item (zero-sum weights give 0/0)
+            if float(m[n_].sum()) == 0:
+                m[n_].reshape(-1)[0] = 1.0
         table = losses_table(eps, ks, param)
         for name, (f, tol, kind) in table.items():
             base = {"fn": name, "x": spec(x), "y": spec(y), "mask": spec(m), "eps": eps, "ks": ks, "param": param}
